@@ -3,7 +3,7 @@ CONSTANTS
     Mode = "edges"
     Depth = 0
     Inst = {1}
-    Idents = {"anon", "a@d1", "a@d2", "b@d1", "@d1", "a@"}
+    Idents = {"anon", "a@d1", "a@d2", "b@d1", "@d1", "a@", "anonymous@"}
     Meths = {"exch"}
     Streams = {1}
     TTL = 2
